@@ -27,7 +27,8 @@ SingleVector(s, grp, v) ==
 \* two parties (SALife behaviour I_secret, R_newsa, I_finish, children, then traffic both ways)
 XI == FillT("seeded", 256, Seed + 77)
 TwoPartyVector(s, grp, seedR) ==
-  LET nonce == FillT("seeded", 64, Seed + 5)
+  LET \* Ni | Nr at both ends of its range and in between (the responder's path, NewIKESAKey, takes the same nonces as the direct derivation)
+      nonce == FillT("seeded", << 512, 64, 1, 511, 512, 256, 32 >>[(seedR % 7) + 1], Seed + 5)
       sp == SpiPairs[2]
       pubR == RefT(2, "pub", DhLen(grp))
       shared == SharedT(grp, XI, pubR)
